@@ -152,7 +152,7 @@ func requests() []request {
 	names := []string{"", "name=", "name=nosuchdb", "name=db", "nme=db"}
 	escaping := []string{"name=..%2F..%2Fescaped", "name=sub%2Fdb", "name=.."} // names that are not file names
 	ids := []string{"", "id=abc", "id=99999999999999999999999", "id=-5", "id=0", "id=4242"}
-	nodeHdrs := []string{"", "own", "foreign", "malformed"}
+	nodeHdrs := []string{"", "own", "own-lower", "foreign", "malformed"} // own-lower: the node's own ID spelt in lowercase hex (parses to the same number)
 	allowed := map[string]string{"/export": "GET", "/halt": "POST,DELETE", "/handoff": "POST", "/import": "POST", "/info": "GET", "/promote": "POST", "/stream": "POST", "/tx": "POST", "/events": "GET"}
 	for _, p := range []string{"/stream", "/tx", "/halt", "/handoff", "/promote", "/import", "/export", "/info", "/events", "/unknown"} {
 		for _, m := range methods {
@@ -213,7 +213,7 @@ func requests() []request {
 							}
 							query := strings.Trim(q+"&"+id, "&")
 							// any id that parses as an int64 is well-formed, and POST /halt creates the database by design (a replica may halt to create one)
-							valid := m == "POST" && (q == "name=db" || q == "name=nosuchdb") && (id == "id=4242" || id == "id=-5") && nh != "own" // id 0 means "no lock" and is refused
+							valid := m == "POST" && (q == "name=db" || q == "name=nosuchdb") && (id == "id=4242" || id == "id=-5") && nh != "own" && nh != "own-lower" // id 0 means "no lock" and is refused
 							if m == "DELETE" {
 								valid = false // releasing a lock that is not held changes nothing either way
 							}
@@ -242,7 +242,7 @@ func requests() []request {
 				for _, b := range []string{"empty", "posmap-empty", "posmap-one", "posmap-trunc", "posmap-count", "posmap-name", "garbage"} {
 					for _, nh := range nodeHdrs {
 						for _, q := range []string{"", "filter=db", "filter=,,"} {
-							valid := (b == "posmap-empty" || b == "posmap-one") && nh != "own"
+							valid := (b == "posmap-empty" || b == "posmap-one") && nh != "own" && nh != "own-lower"
 							add(request{Method: m, Path: p, Query: q, NodeHdr: nh, Body: b, Invalid: !valid, Stream: true})
 						}
 					}
@@ -481,6 +481,8 @@ func run1(c Case) (res Result) {
 		switch rq.NodeHdr {
 		case "own":
 			req.Header.Set("Litefs-Id", litefs.FormatNodeID(target.Store.ID()))
+		case "own-lower":
+			req.Header.Set("Litefs-Id", strings.ToLower(litefs.FormatNodeID(target.Store.ID())))
 		case "foreign":
 			req.Header.Set("Litefs-Id", "000000000000BEEF")
 		case "malformed":
